@@ -12,5 +12,7 @@ CONSTANTS
   MaxSpur = 1
   SoloOn = FALSE
   Bug = ""
+  Hist = "off"
+  UseFast = TRUE
 INVARIANTS Refines HeldLive StoredLive NodeExclusive NodeUsedOwned Ledger EnvelopeLinear LoadSteps NodeBound TypeOK
 CHECK_DEADLOCK FALSE
